@@ -9,6 +9,7 @@ import (
 	"encoding/hex"
 	"fmt"
 	"net/netip"
+	"strings"
 
 	"ssvharness/internal/common"
 
@@ -118,6 +119,19 @@ func (s *script) clientPack(w *world, b []byte, addr string, start, n int, pol s
 	}
 	var r packRes
 	var e error
+	if w.p.name == "direct" && strings.HasPrefix(addr, "d:") {
+		// the target is a scripted host: its answer (or failure) is part of the case
+		name := ca.Domain()
+		if w.res == "" {
+			scriptDNS().fail(name)
+		} else {
+			ip, err := addrPort(w.res + ":0")
+			if err != nil {
+				panic(err)
+			}
+			scriptDNS().set(name, ip.Addr())
+		}
+	}
 	pan := common.Safely(func() { r.dest, r.ps, r.pl, e = w.cPacker.PackInPlace(context.Background(), b, ca, start, n) })
 	r.class = classify(pan, e, b, r.ps, r.pl)
 	var line string
@@ -145,13 +159,27 @@ func (s *script) clientPack(w *world, b []byte, addr string, start, n int, pol s
 	case "socks5":
 		line = fmt.Sprintf("pack socks5c limit=%d addr=%s start=%d len=%d", w.cMax, addr, start, n)
 	case "direct":
-		line = fmt.Sprintf("pack directc mtu=%d res=- addr=%s start=%d len=%d", w.mtu, addr, start, n)
+		res := "-"
+		if strings.HasPrefix(addr, "d:") && w.res != "" {
+			res = w.res
+		}
+		line = fmt.Sprintf("pack directc mtu=%d res=%s addr=%s start=%d len=%d", w.mtu, res, addr, start, n)
 	}
 	if r.ok() && view == nil {
 		view = b[r.ps : r.ps+r.pl]
 	}
-	s.add(line+rw.arg(), renderPack(b, r.class, r.ps, r.pl, view, rw))
+	s.add(line+rw.arg(), renderPack(b, r.class, r.ps, r.pl, view, rw)+refusedSuffix(w, r.class, b, rw))
 	return r
+}
+
+// refusedSuffix: a refused none / SOCKS5 pack has still written its header; what the buffer holds afterwards is
+// compared with the model's refused buffer.
+func refusedSuffix(w *world, class string, b []byte, rw *win) string {
+	// (not in the relay flows: there the buffer holds cipher-dependent leftovers of the preceding unpack)
+	if rw == nil && (w.p.name == "none" || w.p.name == "socks5") && strings.HasPrefix(class, "err:") {
+		return " " + fnv(b)
+	}
+	return ""
 }
 
 // serverPack runs w's server packer on b (the packer exists once the server has unpacked a packet).
@@ -198,7 +226,7 @@ func (s *script) serverPack(w *world, b []byte, src string, start, n, maxPacketL
 	if r.ok() && view == nil {
 		view = b[r.ps : r.ps+r.pl]
 	}
-	s.add(line+rw.arg(), renderPack(b, r.class, r.ps, r.pl, view, rw))
+	s.add(line+rw.arg(), renderPack(b, r.class, r.ps, r.pl, view, rw)+refusedSuffix(w, r.class, b, rw))
 	return r
 }
 
@@ -281,7 +309,7 @@ func (s *script) serverUnpack(w *world, b []byte, from netip.AddrPort, ps, pl in
 		if w.p.k == 1 {
 			lookup, uhash = 1, hx(w.hashes[:16])
 		}
-		line = fmt.Sprintf("unpack sss idh=%d lookup=%d uhash=%s now=%d start=%d len=%d", w.p.k, lookup, uhash, now, ps, pl)
+		line = fmt.Sprintf("unpack sss idh=%d lookup=%d uhash=%s others=%s upos=%d now=%d start=%d len=%d", w.p.k, lookup, uhash, hx(w.otherHashes), w.userPos, now, ps, pl)
 	case "none":
 		line = fmt.Sprintf("unpack nones start=%d len=%d", ps, pl)
 	case "socks5":
@@ -315,7 +343,11 @@ func (s *script) clientUnpack(w *world, b []byte, from netip.AddrPort, ps, pl in
 	var line string
 	switch w.p.name {
 	case "ss":
-		line = fmt.Sprintf("unpack ssc idh=%d csid=%s now=%d start=%d len=%d", w.p.k, hx(csid), now, ps, pl)
+		op := "ssc"
+		if w.statefulClient {
+			op = "sscs" // the same unpacker instance over a history: the model threads its session state
+		}
+		line = fmt.Sprintf("unpack %s idh=%d csid=%s now=%d start=%d len=%d", op, w.p.k, hx(csid), now, ps, pl)
 	case "none":
 		line = fmt.Sprintf("unpack nonec server=%s from=%s start=%d len=%d", showAddrPort(w.serverAP), showAddrPort(from), ps, pl)
 	case "socks5":
